@@ -13,8 +13,9 @@ Line-protocol handler for the Python-level models of `FixedPoint`, `UUID`, `Floa
 * `c02x.float.read <hex>` → `ok <16 hex digits: pattern of the float returned> <rest hex>` | `err:struct`
 * `c02x.double.send <16 hex digits>` → `ok <16 hex>`;  `c02x.double.read <hex>` → `ok <16 hex> <rest>`
 * `c02x.cast32 <16 hex digits>` → `ok <8 hex>` (the bare C cast, ∞ on overflow)
-* `c02x.fixed.send <u8|i8|i16|u16|i32|i64|u64> <bits> <p> <q>` → `ok <hex>` | `err:struct`
-  (compare: `FixedPoint(cls, bits).send(p / q, buf)` for `p / q` exactly representable, `q > 0`)
+* `c02x.fixed.send <u8|i8|i16|u16|i32|i64|u64> <bits> <p> <q>` → `ok <hex>` | `err:struct` | `err:other`
+  (compare: `FixedPoint(cls, bits).send(float(p / q), buf)` for `p / q` exactly representable as a
+  float, `q > 0`; struct.error → `err:struct`, OverflowError → `err:other`)
 * `c02x.fixed.read <base> <bits> <hex>` → `ok <numerator> <denominator> <rest hex>` | `err:struct`
   (compare: `Fraction(FixedPoint(cls, bits).read(...))` — equal as fractions, the model's is unreduced)
 Unparsable arguments → `bad-op`.
